@@ -119,6 +119,49 @@ PROPS = {
         "level_text": "Lean theorems C04_perm / C04_reject / table_ok over the cyclicGroups table regenerated from range.go on every run: for every n in 1..2^32+60 and every pair of draws the model iterator terminates and emits a permutation of 1..n; other sizes are rejected. Pratt certificates for all 32 rows are re-derived and kernel-checked each run. The algorithm model is tied to the code by differential runs of the real iterator.",
         "level_note": "Trusted: Lean kernel + Mathlib; sxfacts reads the table faithfully; math/big = Nat arithmetic; correspondence of the hand-written Next/constructor model is validated by sxdiff iter (differential, not proved).",
     },
+    "C08": {
+        "modules": ["SxVerif.Props.C08"],
+        "components": ["engine"],
+        "trusted_base": [
+            "modelled, not verified: Go channel / select / WaitGroup / context semantics as the transition system Model/Engine.lean (bounded FIFO with closed flag, send-on-closed and double close = panic, a select may take any ready case, parent cancel propagates to the derived ctx atomically); one step = one channel operation, call or timer event of one goroutine",
+            "the generator and the `requests` channel are abstracted to the list of requests still to be delivered (its own plumbing is C01/C13); `Scan` is an oracle with arbitrary latency (any interleaving); the rate limiter only delays `Scan` (rateLimitScanner.Scan = Take; delegate — tied by sxfacts); the flush timer branch of LogResults and zap's error sink are not modelled",
+            "stage descriptors regenerated by sxfacts/stages_engine.go from engine.go, result.go, logger.go, root.go, config.go and the command files (channel roles by declaration, guards by the enclosing select, which ctx by the call chain); Props/C08.stages_as_modelled decides that they are what the transition system encodes",
+            "Start's early-return branch (GenerateRequests fails: one buffered error, both channels closed, no goroutine) is not part of the transition system; it is covered by the descriptor `startEarly` and by harness cases `generr`",
+        ],
+        "assumptions": ["workers >= 1 (parseRawOptions refuses workers <= 0: generated fact workersValidated)",
+                        "no Ctrl-C during the run (cmdCtx = false); cancellation is C12",
+                        "C08_drain_partial: DrainedAtCancel — copier and logger empty the result path (<= 6*1000+4 of their own steps, C08_drain_steps) within the exit delay; wall-clock, measured by the harness at the default 300 ms with > 2000 queued records"],
+        "level_text": "Lean theorems over the interleaving semantics Model/Engine.lean (GenericEngine.Start + W workers + errc cap 100 + resultChan internalResults -> copier -> results + LogResults + startScanEngine controller/drain/main with a logical clock), by induction over Reachable, for every W >= 1, every request list, every Scan oracle and every schedule: C08_handoff (receive events = prefix of the stream), C08_scan_once / C08_put_once / C08_err_once (multiset conservation incl. what workers hold), C08_done_after_all (done closed => all W workers returned, stream exhausted, nothing in progress, errc closed first), C08_complete (probes ~ ok targets, Puts ~ detections, error sends ~ error entries + failures), C08_fifo (printed ++ in-flight = Puts, also after the controller's cancel), C08_err_fifo (logged ++ in-flight = sent on every path; all logged once the drain returned), C08_no_panic, C08_drain_partial + C08_drain_steps (everything printed if the result path was empty at cancel; that needs at most 6004 copier/logger steps, each enabled). The instance is tied to the source by generated stage descriptors (stages_as_modelled, decided) and by running the REAL NewScanEngine/GenericEngine/resultChan/LogResults/startScanEngine with a recording scanner (W in {1,2,7,100,1000}, > 2000 results, > 100 errors, random latencies, limiter on/off, real generator chain).",
+        "level_note": "Partial: 'everything detected is printed before exit' is proved under the named hypothesis DrainedAtCancel (C08_full is stated, not claimed). Trusted: Lean kernel; the channel/select/context semantics of the transition system (validated differentially: final multisets, FIFO order via a Put-order recorder, done-after-probes, concurrency <= W, exit not before done + delay); sxfacts for the descriptors.",
+    },
+    "C16": {
+        "modules": ["SxVerif.Props.C16"],
+        "components": ["exitdelay"],
+        "trusted_base": [
+            "modelled, not verified: time as a logical clock (`tick`), `time.After(d)` as a timer whose receive is enabled once clock >= creation time + d; Go channel / select / context semantics as in Model/Engine.lean (see C08)",
+            "the packet receiver is abstracted to an external producer that reads the next arrived frame only while the derived ctx is live and then calls Put (receiver loop polls ctx at the loop head; C03/C06/C20 own the frame side)",
+            "exit-delay wiring and controller shape regenerated by sxfacts/stages_engine.go (flag default, withExitDelay in all 11 commands, newEngineConfig default, statement order of the controller goroutine)",
+        ],
+        "assumptions": ["timers do not fire early (Go runtime)",
+                        "that the enqueued late record is also PRINTED needs the drain hypothesis of C08 (DrainedAtCancel); C16_full is stated, not claimed",
+                        "bounded return: weak fairness of the scheduler / select and Scan, Write returning (C12)"],
+        "level_text": "Lean theorems over Model/Engine.lean with a logical clock and an external producer, by induction over Reachable, for every request list, every arrival script, every W and schedule: C16_delay_respected (controller cancel at tc => done closed at td with td + delay <= tc), C16_cancel_provenance (the derived ctx is cancelled only by the controller or by Ctrl-C), C16_late_reply_accepted / C16_late_reply_enqueued (before the cancel a frame that arrived can be read and Put; without Ctrl-C every frame read is enqueued, the result path stays FIFO and lossless across the cancel), C16_controller_drops_nothing, C16_returns_bounded (progress + ranking function with a closed bound), C16_records_complete; exit_delay_wired decides the regenerated wiring facts (default 300 ms, all 11 commands, controller order done -> timer(exitDelay) -> cancel). Tied to the code by running the REAL startScanEngine + resultChan + LogResults with a fake engine (done at 0, replies at scripted times incl. 0.5*delay, optional Ctrl-C) and measuring cancel and return times.",
+        "level_note": "Partial: printing of the late record needs C08's drain hypothesis; termination needs fairness (bounded steps proved, not bounded time). Trusted: Lean kernel; logical-clock abstraction of timers; sxfacts for wiring; timing measured with generous slack (3 s) by the harness.",
+    },
+    "C12": {
+        "modules": ["SxVerif.Props.C12"],
+        "components": ["cancel"],
+        "trusted_base": [
+            "modelled, not verified: Go channel / select / WaitGroup / context semantics as Model/Engine.lean (see C08); Ctrl-C = step `cancelCmd`, enabled in every state, cancelling command ctx and derived ctx together; SIGINT delivery itself is runtime",
+            "generic-engine side only: the packet pipeline lemmas (Proofs/ConcPacket*.lean) are imported at the marked place of Props/C12.lean when available",
+            "side conditions SingleCloser / CloseAfterSenders / GuardedOnReturnPath decided on descriptors regenerated by sxfacts/stages_engine.go",
+        ],
+        "assumptions": ["weak fairness: an enabled step of a return-path process is eventually taken (Go scheduler; select picks any ready case, so a worker may take further requests after the cancellation: the 5*|pending| term of the bound)",
+                        "Scan, Write and limiter.Take() return (bounded by C09/C10 timeouts; with --rate a worker may sit in Take(), which is not ctx-aware, for up to W*window/N)",
+                        "the harness's Scanner ignores ctx (worst case for the return time)"],
+        "level_text": "Lean theorems over Model/Engine.lean with Ctrl-C enabled in every state, by induction over Reachable, for every W, request list, producer script and schedule, i.e. every cancellation point: C12_no_panic (no send on a closed channel, no double close; errc closed => all W workers returned; results closed <=> copier returned), C12_progress (derived ctx cancelled and not returned => some return-path process can step), C12_rank_step + C12_bounded_return (ranking function: every return-path step strictly decreases it, no other step increases it after the cancel; along every execution at most rank steps), C12_rank_bound (rank <= 4*capRes + 2*capErr + 7*W + 5*|pending| + 12 = 4912 + 5*|pending| at the source's constants), C12_streams_end (returned => logger and drain returned, errc closed and empty, every sent error logged once), C12_whole_records (output grows only by one whole record per Write; only Put values are printed). Side conditions decided on regenerated descriptors. Tied to the code by cancelling the REAL engine + startScanEngine at the k-th Scan / Put / error / write for every k of short runs and with full buffers, in a child process (panic => recorded with goroutine dump), checking return time, complete lines, at-most-once counts.",
+        "level_note": "Partial: bounded STEPS under fairness, not bounded time (C12_full stated, not claimed); generic-engine side; packet side pending import. Trusted: Lean kernel; channel/select semantics of the transition system; sxfacts for descriptors.",
+    },
     "C20": {
         "modules": ["SxVerif.Props.C20"],
         "components": ["recv"],
